@@ -49,6 +49,10 @@ func numDomain() []*big.Rat {
 		"9223372036854775807", "-9223372036854775808"} {
 		add(s)
 	}
+	// values that differ by less than float32 precision: 0.1 as float64 vs 0.1 rounded to float32,
+	// 2^24 vs 2^24+1 (the latter is not a float32)
+	d = append(d, new(big.Rat).SetFloat64(0.1), new(big.Rat).SetFloat64(float64(float32(0.1))),
+		new(big.Rat).SetInt64(16777216), new(big.Rat).SetInt64(16777217))
 	return d
 }
 
@@ -382,7 +386,7 @@ func runC19Case(c *Ctx, idx int) *CaseResult {
 func init() {
 	register(&Check{
 		ID: "C19", Level: "exploration",
-		Rule: "direct part, exhaustive over a finite domain: every ordered pair of the 12 numeric kinds x {plain, behind pointer, in interface} x 32 boundary values (0, +-1, +-0.5, +-1.25, every width limit <= MaxInt64, 2^53-1, 2^53, 2^53+1, MaxInt64, MinInt64) that are exactly representable in both kinds (float pairs: exactly representable as float64), strings (empty, prefixes, case, non-ASCII, NUL, invalid UTF-8), booleans (== and != only), times (same instant in 4 locations, +-1ns, zero, with/without monotonic reading), each with all 6 operators, the mirrored call and the exact mathematical order as value-determinism oracle; GRL part: seeded sample of numeric kind/value pairs through conditions over typed fact fields (also via *int64 and interface{} fields); non-trivial = pairs of different kinds / wrappings / locations",
+		Rule: "direct part, exhaustive over a finite domain: every ordered pair of the 12 numeric kinds x {plain, behind pointer, in interface} x 36 boundary values (0, +-1, +-0.5, +-1.25, every width limit <= MaxInt64, 2^24, 2^24+1, 0.1 as float64 and as float32, 2^53-1, 2^53, 2^53+1, MaxInt64, MinInt64) that are exactly representable in both kinds (float pairs: exactly representable as float64), strings (empty, prefixes, case, non-ASCII, NUL, invalid UTF-8), booleans (== and != only), times (same instant in 4 locations, +-1ns, zero, with/without monotonic reading), each with all 6 operators, the mirrored call and the exact mathematical order as value-determinism oracle; GRL part: seeded sample of numeric kind/value pairs through conditions over typed fact fields (also via *int64 and interface{} fields); non-trivial = pairs of different kinds / wrappings / locations",
 		Assume: []string{"NaN excluded", "unsigned values beyond MaxInt64 excluded (the property bounds the domain to the int64 range)"},
 		Cases:  tierN(4000, 100000),
 		Run:    runC19Case,
